@@ -14,7 +14,9 @@ META = {
     'level': 'exploration',
     'rule': ('Generated float models x recipes using only weight-only, fp16 '
              'and dynamic-range rules (4/8 bit, sym/asym, per-tensor/'
-             'per-channel, uniform or per-op mixed) x random inputs. The '
+             'per-channel, uniform or per-op mixed; a third of the models are '
+             'FULLY_CONNECTED graphs sharing one weight whose sharers get '
+             'different treatments of one storage width) x random inputs. The '
              'quantized model is run in the interpreter and compared (i) end '
              'to end with a reference program = source model with every '
              'rewritten constant replaced by its independently dequantized '
